@@ -45,7 +45,7 @@ h_fail_s3_querystr(void)
 	q = aws_sign_s3_querystr(key_id, secret, region, method, bucket, path, expiry);
 	VCOVER(q != NULL);
 	VCOVER(q == NULL && g_aws_time.time_calls == 1 && g_aws_n == 0);
-	VCOVER(q == NULL && g_aws_n == 1);
+	VCOVER(q == NULL && g_aws_n == 5);	/* the string to sign could not be formatted */
 	VCOVER(q == NULL && g_aws_n == 6);	/* the query string itself could not be formatted */
 	if (q != NULL)
 		free(q);
